@@ -182,6 +182,8 @@ def rvalue(r, kind):
         return {'__q__': r.randint(-40, 40) / 8, 'u': r.choice(['fg', 'pg', 'ng'])}
     if kind == 'time':
         return {'__q__': r.randint(-40, 40) / 8, 'u': r.choice(['s', 'ms'])}
+    if kind == 'qlist':
+        return [{'__q__': r.randint(0, 40) / 8, 'u': r.choice(['fg', 'pg', 'ng'])} for _ in range(r.randint(1, 3))]
     if kind == 'dict':
         return {k: (r.randint(0, 9) if r.random() < 0.65 else {'x': r.randint(0, 9), 'y': {'z': r.randint(0, 9)}})
                 for k in r.sample('abcd', r.randint(0, 4))}
@@ -193,7 +195,7 @@ def rvalue(r, kind):
 KINDS = {
     'accumulate': ['int', 'float', 'iarr', 'farr', 'list', 'mass', 'time'],
     'default': ['int', 'float', 'iarr', 'farr', 'mass'],
-    'set': ['int', 'float', 'iarr', 'list', 'dict', 'mass'],
+    'set': ['int', 'float', 'iarr', 'list', 'dict', 'mass', 'qlist'],
     'null': ['int', 'float', 'farr', 'mass'],
     'nonnegative_accumulate': ['int', 'float', 'iarr', 'farr', 'mass'],
     'merge': ['dict'],
@@ -212,6 +214,10 @@ def gen_var(r):
     if kind == 'time':
         var['default']['u'] = 'ms'
         var['units'] = r.choice(['ms', None])
+    if kind == 'qlist':
+        for q in var['default']:
+            q['u'] = 'fg'
+        var['units'] = 'fg'
     if upd == 'user_fn':
         var['fn_by'] = r.choice(['name', 'function'])
     return var
@@ -317,7 +323,7 @@ def run(spec):
     schema['other'] = {'z': {'_default': 7}, 'w': {'_default': [1, 2], '_updater': 'set'}}
 
     def declared_units(var):
-        return getattr(units, {'mass': 'fg', 'time': 'ms'}[var['kind']]) if var['kind'] in ('mass', 'time') else None
+        return getattr(units, {'mass': 'fg', 'time': 'ms', 'qlist': 'fg'}[var['kind']]) if var['kind'] in ('mass', 'time', 'qlist') else None
 
     # the batch as a nested update + the reference fold
     update = {}
@@ -342,6 +348,8 @@ def run(spec):
             cur = model(name, cur, u)
             if du is not None and hasattr(cur, 'to'):
                 cur = cur.to(du)
+            elif du is not None and isinstance(cur, list):
+                cur = [c.to(du) for c in cur]
         model_state[p] = cur
         if len(ups) > 1:
             rich = True
@@ -349,7 +357,7 @@ def run(spec):
         for k in p[:-1]:
             node = node.setdefault(k, {})
         node[p[-1]] = ups[0] if len(ups) == 1 else {'_multi_update': ups}
-        if var['kind'] in ('mass', 'time', 'iarr', 'farr'):
+        if var['kind'] in ('mass', 'time', 'iarr', 'farr', 'qlist'):
             rich = True
     snap = copy.deepcopy(update)
 
@@ -389,7 +397,8 @@ def run(spec):
                     mechanism=None)
             du = declared_units(var)
             if du is not None and p in touched:
-                V.check('units_normalised', hasattr(got, 'units') and got.units == du,
+                V.check('units_normalised', (hasattr(got, 'units') and got.units == du) or
+                        (isinstance(got, list) and all(hasattr(g, 'units') and g.units == du for g in got)),
                         lambda: ('variable %s not in declared units %s: %r' % ('/'.join(p), du, got)))
         V.check('frame', after['other']['z'] == 7 and after['other']['w'] == [1, 2] and
                 after['other']['w'] is other_before, ('untouched branch changed', repr(after['other'])))
